@@ -194,6 +194,29 @@ def main():
     else:
         run_humanized(D_h, ALL_UNITS)
 
+    # long fractions: more decimal places than the unit has zeros (trailing zeros, so the numeral still denotes an integer),
+    # e.g. "1.2500k" = 1250, "0.0012500M" = 1250: every mantissa of <= 2 significant digits at every position of a fraction
+    # of up to (unit exponent + 3) places, integer part 0..12
+    CL = "humanized:long-fraction-denotes-exact-integer"
+    for u in CANON_UNITS:
+        e = UNIT_EXP[u.lower()]
+        for flen in range(e + 1, e + 4):
+            for pos in range(0, e):
+                for sig in list(range(1, 10)) + [10, 25, 99]:
+                    frac = ["0"] * flen
+                    sd = str(sig)
+                    if pos + len(sd) > e:
+                        continue
+                    frac[pos:pos + len(sd)] = list(sd)
+                    for ip in (0, 1, 12):
+                        txt = f"{ip}." + "".join(frac) + u
+                        v = ip * 10 ** e + int("".join(frac)) * 10 ** e // 10 ** flen
+                        st, got = call(parse_humanized, txt)
+                        if st == "ok" and got == v:
+                            R.ok(CL, txt)
+                        else:
+                            R.fail(CL, {"fn": "parse_humanized", "input": txt}, got, v, f"{CL}:decimal-x-unit")
+
     # seeded numerals with up to 15 significant digits, value within int64
     C15 = "humanized:15-digit-sample"
     rng = B.rng
